@@ -7,6 +7,16 @@
     pub closed spec fn pending(&self) -> Seq<u8> { self.working_buffer@ }
     /// the stack of open masters
     pub closed spec fn stack(&self) -> Seq<OpenTag> { self.open_tags@ }
+    /// the abstract state as a value
+    pub closed spec fn ws(&self) -> WS { WS { out: self.dest.written(), pending: self.working_buffer@, stack: self.open_tags@ } }
+    /// C09 (the writer is the function sp_write): unless the destination failed, the call succeeded exactly when the
+    /// specification accepts it, and then left exactly the specified state
+    pub closed spec fn agrees(&self, r: Result<(), TagWriterError>, expected: Option<WS>) -> bool {
+        !(r matches Err(e) && e is WriteError) ==> {
+            &&& r is Ok <==> expected is Some
+            &&& r is Ok ==> self.ws().out =~= expected->Some_0.out && self.ws().pending =~= expected->Some_0.pending && self.ws().stack =~= expected->Some_0.stack
+        }
+    }
     /// where the header of the innermost open master will be spliced in (its recorded start, or the end of the buffer)
     pub closed spec fn top_start(&self) -> int {
         if self.open_tags@.len() > 0 && self.open_tags@.last().1 is Known { self.open_tags@.last().1->Known_0 as int } else { self.working_buffer@.len() as int }
